@@ -19,6 +19,98 @@ def four (eps : Rat) (xste : List Rat) (f : Fl → Except Err (List Elt)) : Json
   | _, _, .error x, _ => errJson x
   | _, _, _, .error x => errJson x
 
+
+/-! argument forms / live objects / histories (strengthening round) -/
+
+def numFormOfStr : String → Except String NumForm
+  | "pyfloat" => pure .pyFloat | "pyint" => pure .pyInt | "pybool" => pure .pyBool
+  | "npfloat32" => pure .npFloat32 | "npfloat64" => pure .npFloat64
+  | "npint32" => pure .npInt32 | "npint64" => pure .npInt64
+  | "tfconst" => pure .tfConst | "tfvariable" => pure .tfVariable
+  | s => throw s!"unknown numeric form {s}"
+
+/-- null | "text" | [n, d] (python float) | {"f": form, "v": [n, d]} | {"f": "ndarray", "shape": [...], "vals": [...]} -/
+def argOfJson (j : Json) : Except String Arg :=
+  match j with
+  | .null => pure .none
+  | .str s => pure (.str s)
+  | .arr _ => do pure (.num .pyFloat (← ratOfJson j))
+  | _ => do
+    let f ← getStr j "f"
+    if f == "ndarray" then pure (.arr (← getNatList j "shape") (← getRatList j "vals"))
+    else pure (.num (← numFormOfStr f) (← getRat j "v"))
+
+def getArg (j : Json) (k : String) : Except String Arg :=
+  match j.getObjVal? k with
+  | .ok v => argOfJson v
+  | .error _ => pure .none
+
+/-- null | int (python) | {"f": "py" | "npint", "e": int} -/
+def expArgOfJson (j : Json) : Except String ExpArg :=
+  match j with
+  | .null => pure .none
+  | .num _ => do pure (.py (← j.getInt?))
+  | _ => do
+    let f ← getStr j "f"
+    let e ← getInt j "e"
+    if f == "npint" then pure (.npInt e) else pure (.py e)
+
+def getExpArg (j : Json) (k : String) : Except String ExpArg :=
+  match j.getObjVal? k with
+  | .ok v => expArgOfJson v
+  | .error _ => pure .none
+
+/-- scale_axis as Python hands it over: null | int | [int, ...] (negative ints allowed) -/
+def axisArgOfJson (j : Json) : Except String AxisArg :=
+  match j with
+  | .null => pure .none
+  | .arr a => do pure (.many (← a.toList.mapM fun v => v.getInt?))
+  | v => do pure (.one (← v.getInt?))
+
+def getAxisArg (j : Json) (k : String) : Except String AxisArg :=
+  match j.getObjVal? k with
+  | .ok v => axisArgOfJson v
+  | .error _ => pure .none
+
+def xsteOf (j : Json) : Except String (List Rat) :=
+  match j.getObjVal? "xste" with
+  | .ok _ => getRatList j "xste"
+  | .error _ => getRatList j "x"
+
+def binOpOfJson (j : Json) : Except String (BinOp × Option (List Rat)) := do
+  match ← getStr j "k" with
+  | "call" =>
+    let np := match j.getObjVal? "np" with | .ok (.bool true) => true | _ => false
+    if np then pure (.callNp (← getNatList j "shape") (← getRatList j "x"), some (← xsteOf j))
+    else pure (.call (← getNatList j "shape") (← getRatList j "x"), some (← xsteOf j))
+  | "set_alpha" => pure (.setAlpha (← getArg j "v"), none)
+  | "set_use01" => pure (.setUse01 (← getBool j "v"), none)
+  | "set_axis" => pure (.setAxis (← getAxisArg j "sa") (← getEps j "eps"), none)
+  | "set_bounds" => pure (.setBounds (← getExpArg j "mn") (← getExpArg j "mx"), none)
+  | "set_trainable" => pure (.setTrainable, none)
+  | "set_format" => pure (.setFormat (← getBool j "ch_last"), none)
+  | k => throw s!"unknown binary op {k}"
+
+def terOpOfJson (j : Json) : Except String (TerOp × Option (List Rat)) := do
+  match ← getStr j "k" with
+  | "call" => pure (.call (← getNatList j "shape") (← getRatList j "x"), some (← xsteOf j))
+  | "set_alpha" => pure (.setAlpha (← getArg j "v"), none)
+  | "set_threshold" => pure (.setThreshold (← getArg j "v"), none)
+  | "set_unrolls" => pure (.setUnrolls (← getNat j "v"), none)
+  | "set_trainable" => pure (.setTrainable, none)
+  | "set_format" => pure (.setFormat (← getBool j "ch_last"), none)
+  | k => throw s!"unknown ternary op {k}"
+
+def optRats : Option (List Rat) → Json
+  | some l => rats l
+  | none => Json.null
+
+def histJson (eps : Rat) (xstes : List (List Rat)) (outs : Fl → List (Except Err (List Elt)))
+    (scale : Option (List Rat)) : Json :=
+  let calls := (List.range xstes.length).map fun k =>
+    four eps (xstes.getD k []) fun c => (outs c).getD k (.error .assert)
+  Json.mkObj [("calls", Json.arr calls.toArray), ("scale", optRats scale)]
+
 def handle (j : Json) : Except String Json := do
   let op ← getStr j "op"
   match op with
@@ -51,6 +143,29 @@ def handle (j : Json) : Except String Json := do
     let xste ← getRatList j "xste"
     let eps ← getRat j "eps32"
     pure (four eps xste fun c => ternary c tc shape x)
+  | "bin_hist" =>
+    -- one live binary / stochastic_binary(inference) object and a history of operations on it
+    let o ← j.getObjVal? "obj"
+    let a : BinAttrs := { use01 := ← getBool o "use01", alpha := ← getArg o "alpha", sa := ← getAxisArg o "sa",
+                          eps := ← getEps o "eps", minE := ← getExpArg o "min_e", maxE := ← getExpArg o "max_e" }
+    let st0 : BinSt := { env := { chLast := ← getBool j "ch_last" }, obj := BinObj.new a, outs := [] }
+    let opsJ ← (← j.getObjVal? "ops").getArr?
+    let ops ← opsJ.toList.mapM binOpOfJson
+    let eps ← getRat j "eps32"
+    let xstes := ops.filterMap (·.2)
+    let run (c : Fl) := binRun c st0 (ops.map (·.1))
+    pure (histJson eps xstes (fun c => (run c).outs) (run (Fl.f32 eps)).obj.scale)
+  | "ter_hist" =>
+    let o ← j.getObjVal? "obj"
+    let a : TerAttrs := { alpha := ← getArg o "alpha", threshold := ← getArg o "threshold",
+                          unrolls := ← getNat o "unrolls" }
+    let st0 : TerSt := { env := { chLast := ← getBool j "ch_last" }, obj := TerObj.new a, outs := [] }
+    let opsJ ← (← j.getObjVal? "ops").getArr?
+    let ops ← opsJ.toList.mapM terOpOfJson
+    let eps ← getRat j "eps32"
+    let xstes := ops.filterMap (·.2)
+    let run (c : Fl) := terRun c st0 (ops.map (·.1))
+    pure (histJson eps xstes (fun c => (run c).outs) (run (Fl.f32 eps)).obj.scale)
   | "rnd32" =>
     let xs ← getRatList j "xs"
     pure <| Json.mkObj [("ys", rats (xs.map rnd32))]
